@@ -123,6 +123,13 @@ Definition adjacent_inb (g : list node_t) (x y : dna) : bool :=
   existsb (fun n => existsb (fun p => dna_eqb (fst p) x && dna_eqb (snd p) y) (opairs n)) g.
 
 Definition node_wfb (n : node_t) : bool := wf_dnab (nd_seq n) && Nat.leb K (length (nd_seq n)).
+Definition node_wf (n : node_t) : Prop := wf_dna (nd_seq n) /\ (K <= length (nd_seq n))%nat.
+Definition adjacent_in (g : list node_t) (x y : dna) : Prop :=
+  exists n p, In n g /\ In p (opairs n) /\ fst p = x /\ snd p = y.
+Definition unbranched (g : list node_t) : Prop :=
+  forall n p, In n g -> In p (inner_pairs n) -> mergeableb (fst p) (snd p) = true.
+Definition maximal (g : list node_t) : Prop :=
+  forall n x y, In n g -> In x (okmers n) -> mergeableb x y = true -> adjacent_in g x y.
 (* U2: every step inside a node is a merge;  U3: every merge of the link set is a step inside a node (or closes it) *)
 Definition chk_unbranched (g : list node_t) : bool := forallb (fun n => forallb (fun p => mergeableb (fst p) (snd p)) (inner_pairs n)) g.
 Definition chk_maximal (g : list node_t) : bool :=
@@ -139,12 +146,22 @@ Variable lreads : list (dna * N).
 Definition kmer_colour (x : dna) : N :=
   fold_left (fun m r => if existsb (fun w => dna_eqb (cn stranded w) x) (kmers K (fst r))
                         then N.lor m (N.shiftl 1 (N.land (snd r) 7)) else m) lreads 0.
-Definition kjoin_of (x y : dna) : bool := (mode =? 0) || (kmer_colour x =? kmer_colour y).
+Definition kjoin_f (colf : dna -> N) (x y : dna) : bool := (mode =? 0) || (colf x =? colf y).
+Definition kjoin_of : dna -> dna -> bool := kjoin_f kmer_colour.
 Definition chk_payload_s (g : list node_t) : bool :=
   forallb (fun n =>
     N_list_eqb (sort_N (nd_ids n)) (sort_N (map rank (node_kmers K stranded n))) &&
     (if mode =? 0 then existsb (fun k => kmer_colour k =? nd_colour n) (node_kmers K stranded n)
      else forallb (fun k => kmer_colour k =? nd_colour n) (node_kmers K stranded n))) g.
+Definition payload_ok (idf colf : dna -> N) (g : list node_t) : Prop :=
+  forall n, In n g ->
+    Permutation (nd_ids n) (map idf (node_kmers K stranded n)) /\
+    (mode <> 0 -> forall k, In k (node_kmers K stranded n) -> colf k = nd_colour n).
+(* the nodes of g are exactly the maximal unbranched paths of g's own link set *)
+Definition unitig_graph (colf : dna -> N) (g : list node_t) : Prop :=
+  (1 <= K)%nat /\ Forall (node_wf K) g /\
+  unbranched K stranded (kjoin_f colf) (graph_links K stranded g) g /\
+  maximal K stranded (kjoin_f colf) (graph_links K stranded g) g.
 (* all hypotheses about ONE graph that the uniqueness theorem needs, besides graph_exact *)
 Definition chk_unitig (g : list node_t) : bool :=
   Nat.leb 1 K && forallb (node_wfb K) g &&
